@@ -507,9 +507,15 @@ def paths(src=None, dst=None, dst_nets=None, block=None):
 
         # Use DFS to get the paths [each a list of nets] from src wire to dst wire
         def dfs(w, curr_path):
-            if w is dst:
-                # Found valid path
-                paths.append(curr_path)
+            if curr_path:
+                if w is dst:
+                    # Found valid path; a simple path ends the first time it reaches dst
+                    paths.append(curr_path)
+                    return
+                if w is src:
+                    # Came back around to src: anything found from here on would be
+                    # an inner loop followed by a path that is found on its own
+                    return
             for dst_net in dst_nets.get(w, []):
                 # Avoid loops and the mem net (has no output wire)
                 if dst_net not in curr_path:
@@ -525,21 +531,11 @@ def paths(src=None, dst=None, dst_nets=None, block=None):
     all_paths = collections.defaultdict(dict)
     for src_wire in src:
         for dst_wire in dst:
+            # The traversal stops at src and dst, so no path is empty or contains an
+            # inner loop; longest first, as before.
             paths = paths_src_dst(src_wire, dst_wire)
-            # Remove empty paths...
-            paths = list(filter(lambda x: len(x) > 0, paths))
-            # ...and those that are supersets of others (resulting from an inner loop).
             if src_wire is not dst_wire:
                 paths = sorted(paths, key=lambda p: len(p), reverse=True)
-                keep = []
-                for i in range(len(paths)):
-                    # Check if there is a path in paths[i+1:] that is the suffix
-                    # of paths[i] (paths[i] is at least as large as each path in
-                    # paths[i+1:]). If so, paths[i] contains a loop since both start
-                    # at src_wire, so don't keep it.
-                    if not any(paths[i][-len(p):] == p for p in paths[i + 1:]):
-                        keep.append(paths[i])
-                paths = keep
             all_paths[src_wire][dst_wire] = paths
 
     return PathsResult(all_paths)
